@@ -70,16 +70,31 @@ def set_pre(P: Program, ts, pre, dtype):
             ts[k].grad = torch.tensor([float(x) for x in v], dtype=dtype).reshape(P.nodes[k].shape)
 
 
-def real_backward(P: Program, dtype, tensors, inputs, agg, chunk, retain, pre, report, ts=None, freeze=()):
-    """freeze: leaves switched to requires_grad=False AFTER the forward pass (they are still in the graph)"""
+def as_iterable(kind, xs):
+    """the same collection handed over as another legal kind of `Iterable` (one-shot ones included)"""
+    if kind == "tuple":
+        return tuple(xs)
+    if kind == "gen":
+        return (x for x in xs)
+    if kind == "iter":
+        return iter(list(xs))
+    if kind == "dictkeys":
+        return {x: None for x in xs}.keys()
+    return list(xs)
+
+
+def real_backward(P: Program, dtype, tensors, inputs, agg, chunk, retain, pre, report, ts=None, freeze=(),
+                  inputs_kind="list", tensors_kind="list"):
+    """freeze: leaves switched to requires_grad=False AFTER the forward pass (they are still in the graph);
+    inputs_kind / tensors_kind: which kind of Iterable / Sequence the arguments are passed as"""
     ts = ts if ts is not None else P.build(dtype)
     set_pre(P, ts, pre, dtype)
     for i in freeze:
         ts[i].requires_grad_(False)
     err = None
     try:
-        backward([ts[i] for i in tensors], make_agg(agg, dtype),
-                 inputs=None if inputs is None else [ts[i] for i in inputs],
+        backward(as_iterable(tensors_kind, [ts[i] for i in tensors]), make_agg(agg, dtype),
+                 inputs=None if inputs is None else as_iterable(inputs_kind, [ts[i] for i in inputs]),
                  retain_graph=retain, parallel_chunk_size=chunk)
     except Exception as e:  # noqa: BLE001
         err = classify_exc(e)
